@@ -131,7 +131,7 @@ func (s *Sim) ReportSnap(k int, failure bool) {
 	if !n.Up || n.Inc != o.LeaderInc {
 		return // the leader incarnation that sent it is gone
 	}
-	s.touch(n, &Cause{Kind: "reportsnap", Msg: &pb.Message{From: new(o.To)}}, func() { n.RN.ReportSnapshot(o.To, st) })
+	s.touch(n, &Cause{Kind: "reportsnap", Msg: &pb.Message{From: new(o.To), Reject: new(st == raft.SnapshotFailure)}}, func() { n.RN.ReportSnapshot(o.To, st) })
 }
 
 // ---------------------------------------------------------------- sync Ready
